@@ -112,7 +112,7 @@ def main(argv):
     v.coverage.update({
         'evaluations': len(cases),
         'distinct_nontrivial': distinct_count([c for c in cases if 'IOk' in c]),
-        'rule': 'PASS: seeded random nested programs (difficulty-labelled statements and blocks, blocks, loop, while, do-while, times, if/else chains, inner function items; absolute, relative, zero, negative, hex, 2^31..2^32 literal, constant-expression, const-variable, wrapping and non-constant labels, labels at block starts and ends) parsed and run through passes::semantics::time_and_difficulty::run, the time of every statement compared with Model.Time.time_pass; COMPILE: such programs through compile_olde_ecl (TH06 ECL, 32-bit time field), marker instructions and runs of other instructions with their times compared with Model.Time.compile_items; FORMATS (counted as DECOMP cases): the same kind of stored time sequences, cut to each format's time field, through EVERY instruction format (ANM TH06/07/10/12, ECL TH06/08 subs and timelines, stack ECL TH10, STD TH06/08/12, MSG TH06/09/12) as blob instructions: source -> compile -> write -> read -> decompile -> format -> parse -> compile -> write, the statement sequence compared with the model; DECOMP: random stored i32 time sequences (monotone, around zero, boundary grid, uniform i32) with random jumps (time argument = next/previous/other time, jumps to the end) and runs of adjacent per-difficulty variants (masks splitting the low 4 / all 8 bits, the time changing inside the run or not) injected into a compiled script, decompile_olde_ecl without block recognition, the emitted label/time-label/instruction statement sequence and the printed `@ t` compared with Model.Time.decompile_labels / label_at_offset / raise_goto_time. distinct = distinct case terms with an IOk result',
+        'rule': 'PASS: seeded random nested programs (difficulty-labelled statements and blocks, blocks, loop, while, do-while, times, if/else chains, inner function items; absolute, relative, zero, negative, hex, 2^31..2^32 literal, constant-expression, const-variable, wrapping and non-constant labels, labels at block starts and ends) parsed and run through passes::semantics::time_and_difficulty::run, the time of every statement compared with Model.Time.time_pass; COMPILE: such programs through compile_olde_ecl (TH06 ECL, 32-bit time field), marker instructions and runs of other instructions with their times compared with Model.Time.compile_items; FORMATS (counted as DECOMP cases): the same kind of stored time sequences, cut to the time field of each format, through EVERY instruction format (ANM TH06/07/10/12, ECL TH06/08 subs and timelines, stack ECL TH10, STD TH06/08/12, MSG TH06/09/12) as blob instructions: source -> compile -> write -> read -> decompile -> format -> parse -> compile -> write, the statement sequence compared with the model; DECOMP: random stored i32 time sequences (monotone, around zero, boundary grid, uniform i32) with random jumps (time argument = next/previous/other time, jumps to the end) and runs of adjacent per-difficulty variants (masks splitting the low 4 / all 8 bits, the time changing inside the run or not) injected into a compiled script, decompile_olde_ecl without block recognition, the emitted label/time-label/instruction statement sequence and the printed `@ t` compared with Model.Time.decompile_labels / label_at_offset / raise_goto_time. distinct = distinct case terms with an IOk result',
         'traces_validated_against_impl': len(cases),
         'case_kinds': hist,
         'generator_stats': stats,
